@@ -1,7 +1,7 @@
 (* C08 - proofs about the byte stream ruleHash writes (Model/C08.v `ser`) for the program regenerated from the
    source (Gen/RuleHashProg.v). *)
 From Coq Require Import Lia Permutation.
-From PlzV Require Import Base.Harness Base.StrFacts Model.C08 Gen.RuleHashProg.
+From PlzV Require Import Base.Harness Base.StrFacts Model.C08 Model.C08_Set Model.C08_Spec Gen.RuleHashProg.
 
 (* ------------------------------------------------------------------------------------------ fields *)
 
@@ -194,8 +194,6 @@ Proof.
   unfold item_of. destruct (locate f prog) as [[[pre it] post]|]; [|discriminate]. now exists pre, post.
 Qed.
 
-Definition injective {A B} (H : A -> B) : Prop := forall a b, H a = H b -> a = b.
-
 (* Two targets that differ in ONE hashed field: equal hashes iff the strings written for that field concatenate to the
    same bytes; and if the sequences of strings differ, the hashes can only be equal when an entry boundary moved. *)
 Theorem one_field_characterisation (D : Type) (H : str -> D) :
@@ -213,10 +211,258 @@ Proof.
   split; [exact Hiff|]. intros Hne Hs Heq. apply Hiff in Heq. revert Heq. now apply no_shift_no_collision.
 Qed.
 
+Lemma unread_in p f : In f (unread_fields p) -> read_count f p = 0.
+Proof.
+  unfold unread_fields. intros Hin. apply filter_In in Hin. destruct Hin as [_ Hc]. now apply Nat.eqb_eq.
+Qed.
+
 (* an attribute that ruleHash does not read never changes the hash *)
 Theorem unread_field_collides (D : Type) (H : str -> D) rt f t1 t2 :
   In f (unread_fields prog) -> agree_except f t1 t2 -> H (ser prog rt t1) = H (ser prog rt t2).
 Proof.
-  intros Hin Ha. f_equal. apply (unread_field_ignored f); [|assumption].
-  unfold unread_fields in Hin. apply filter_In in Hin. destruct Hin as [_ Hc]. now apply Nat.eqb_eq.
+  intros Hin Ha. f_equal. apply (unread_field_ignored f); [|assumption]. now apply unread_in.
+Qed.
+
+(* ------------------------------------------------------------------------------------------ readable corollaries (rule hash, runtime = false) *)
+
+Lemma singleton_no_shift (x y : str) : shift_suspect [x] [y] = false.
+Proof.
+  unfold shift_suspect, shape. cbn [concat map]. rewrite !app_nil_r. cbn [list_eqb].
+  destruct (Nat.eqb (length x) (length y)); reflexivity.
+Qed.
+
+Definition plain_list_fields : list field :=
+  [FHashes; FOuts; FLicences; FOptionalOuts; FLabels; FSecrets; FRequires; FOutputDirs].
+Definition bool_fields : list field :=
+  [FBinary; FNeedsTransitive; FOutputIsComplete; FStamp; FFilegroup; FTextFile; FRemoteFile; FLocal; FSrcListFiles;
+   FPreBuild; FPostBuild].
+Definition optbool_fields : list field := [FSubrepo; FSandbox; FExitOnError].
+
+Lemma plain_list_hashed f : In f plain_list_fields -> In f hashed_fields.
+Proof. intros Hin. repeat (destruct Hin as [<-|Hin]; [cbn; tauto|]). destruct Hin. Qed.
+Lemma bool_hashed f : In f bool_fields -> In f hashed_fields.
+Proof. intros Hin. repeat (destruct Hin as [<-|Hin]; [cbn; tauto|]). destruct Hin. Qed.
+Lemma optbool_hashed f : In f optbool_fields -> In f hashed_fields.
+Proof. intros Hin. repeat (destruct Hin as [<-|Hin]; [cbn; tauto|]). destruct Hin. Qed.
+
+Lemma gen_toks_of_list f : In f plain_list_fields -> forall t, toks_of f false t = as_list (get f t).
+Proof. intros Hin t. repeat (destruct Hin as [<-|Hin]; [vm_compute; reflexivity|]). destruct Hin. Qed.
+
+Lemma gen_toks_of_bool f : In f bool_fields -> forall t, toks_of f false t = [if as_bool (get f t) then [2%N] else [1%N]].
+Proof. intros Hin t. repeat (destruct Hin as [<-|Hin]; [vm_compute; reflexivity|]). destruct Hin. Qed.
+
+Lemma gen_toks_of_optbool f : In f optbool_fields -> forall t, toks_of f false t = if as_bool (get f t) then [[2%N]] else [].
+Proof. intros Hin t. repeat (destruct Hin as [<-|Hin]; [vm_compute; reflexivity|]). destruct Hin. Qed.
+
+Lemma gen_toks_of_file_content t : toks_of FFileContent false t = [t_file_content t].
+Proof. vm_compute. reflexivity. Qed.
+
+Lemma gen_toks_of_command t : toks_of FCommand false t = [effective_command t].
+Proof. vm_compute. reflexivity. Qed.
+Lemma gen_toks_of_commands t : toks_of FCommands false t = [effective_command t].
+Proof. vm_compute. reflexivity. Qed.
+
+Section Corollaries.
+  Variable D : Type.
+  Variable H : str -> D.
+  Hypothesis H_inj : injective H.
+
+  Let hash (t : target) : D := H (ser prog false t).
+
+  (* a list attribute written entry by entry: any change is detected unless it moves an entry boundary *)
+  Lemma list_change_detected f t1 t2 :
+    In f plain_list_fields -> agree_except f t1 t2 ->
+    as_list (get f t1) <> as_list (get f t2) ->
+    shift_suspect (as_list (get f t1)) (as_list (get f t2)) = false -> hash t1 <> hash t2.
+  Proof.
+    intros Hin Ha Hne Hs. destruct (one_field_characterisation D H H_inj false f t1 t2 (plain_list_hashed f Hin) Ha) as [_ Hd].
+    rewrite !(gen_toks_of_list f Hin) in Hd. now apply Hd.
+  Qed.
+
+  (* ... and it is NOT detected exactly when the concatenations agree *)
+  Lemma list_change_missed_iff f t1 t2 :
+    In f plain_list_fields -> agree_except f t1 t2 ->
+    (hash t1 = hash t2 <-> concat (as_list (get f t1)) = concat (as_list (get f t2))).
+  Proof.
+    intros Hin Ha. destruct (one_field_characterisation D H H_inj false f t1 t2 (plain_list_hashed f Hin) Ha) as [Hiff _].
+    now rewrite !(gen_toks_of_list f Hin) in Hiff.
+  Qed.
+
+  Lemma bool_change_detected f t1 t2 :
+    In f bool_fields \/ In f optbool_fields -> agree_except f t1 t2 ->
+    as_bool (get f t1) <> as_bool (get f t2) -> hash t1 <> hash t2.
+  Proof.
+    intros [Hin|Hin] Ha Hne.
+    - destruct (one_field_characterisation D H H_inj false f t1 t2 (bool_hashed f Hin) Ha) as [_ Hd].
+      rewrite !(gen_toks_of_bool f Hin) in Hd. apply Hd; [|apply singleton_no_shift].
+      destruct (as_bool (get f t1)), (as_bool (get f t2)); congruence.
+    - destruct (one_field_characterisation D H H_inj false f t1 t2 (optbool_hashed f Hin) Ha) as [_ Hd].
+      rewrite !(gen_toks_of_optbool f Hin) in Hd.
+      destruct (as_bool (get f t1)), (as_bool (get f t2)); try congruence; apply Hd; (discriminate || reflexivity).
+  Qed.
+
+  Lemma file_content_change_detected t1 t2 :
+    agree_except FFileContent t1 t2 -> t_file_content t1 <> t_file_content t2 -> hash t1 <> hash t2.
+  Proof.
+    intros Ha Hne. destruct (one_field_characterisation D H H_inj false FFileContent t1 t2 ltac:(cbn; tauto) Ha) as [_ Hd].
+    rewrite !gen_toks_of_file_content in Hd. apply Hd; [congruence | apply singleton_no_shift].
+  Qed.
+
+  (* the command selected for the current configuration (a change to a command that is not selected is not a change
+     of the build action) *)
+  Lemma command_change_detected f t1 t2 :
+    f = FCommand \/ f = FCommands -> agree_except f t1 t2 ->
+    effective_command t1 <> effective_command t2 -> hash t1 <> hash t2.
+  Proof.
+    intros [->| ->] Ha Hne.
+    - destruct (one_field_characterisation D H H_inj false FCommand t1 t2 ltac:(cbn; tauto) Ha) as [_ Hd].
+      rewrite !gen_toks_of_command in Hd. apply Hd; [congruence | apply singleton_no_shift].
+    - destruct (one_field_characterisation D H H_inj false FCommands t1 t2 ltac:(cbn; tauto) Ha) as [_ Hd].
+      rewrite !gen_toks_of_commands in Hd. apply Hd; [congruence | apply singleton_no_shift].
+  Qed.
+End Corollaries.
+
+(* ------------------------------------------------------------------------------------------ the statement is false: witnesses *)
+
+Definition base : target :=
+  set_label (Label [] (s "pkg") (s "t")) (set_command (s "cmd") (set_fallback_config (s "opt") empty_target)).
+
+(* t1, t2 are well-formed, differ in exactly the field f (in its value, not just in its listing), and have the same
+   rule-hash stream *)
+Definition one_field_collision (f : field) (t1 t2 : target) : Prop :=
+  wf t1 /\ wf t2 /\ agree_except f t1 t2 /\ ~ field_same f t1 t2 /\ ser prog false t1 = ser prog false t2.
+
+Ltac agree_tac := let g := fresh "g" in let Hg := fresh "Hg" in
+  intros g Hg; destruct g; try reflexivity; exfalso; apply Hg; reflexivity.
+Ltac collision_tac tac :=
+  split; [vm_compute; reflexivity|]; split; [vm_compute; reflexivity|]; split; [agree_tac|];
+  split; [unfold field_same; cbn; tac | vm_compute; reflexivity].
+Ltac perm_len_tac := let Hp := fresh "Hp" in intros Hp; apply Permutation_length in Hp; discriminate.
+Ltac perm_one_tac := let Hp := fresh "Hp" in intros Hp; apply Permutation_length_1 in Hp; discriminate.
+
+(* (a) an entry boundary inside one list: outs ["ab","c"] / ["a","bc"] (both sorted sets, as BuildTarget.insert keeps them) *)
+Lemma witness_list_boundary :
+  one_field_collision FOuts (set_outs [s "ab"; s "c"] base) (set_outs [s "a"; s "bc"] base).
+Proof. collision_tac discriminate. Qed.
+
+(* (b) an empty entry *)
+Lemma witness_empty_entry :
+  one_field_collision FLabels (set_labels [s "a"; []] base) (set_labels [s "a"] base).
+Proof. collision_tac discriminate. Qed.
+
+(* (c) hashMap: key=value without framing *)
+Lemma witness_hashmap_kv :
+  one_field_collision FEnv (set_env [(s "a", s "b=c")] base) (set_env [(s "a=b", s "c")] base).
+Proof. collision_tac perm_one_tac. Qed.
+
+Lemma witness_hashmap_entries :
+  one_field_collision FEntryPoints (set_entry_points [(s "a", s "1"); (s "b", s "2")] base)
+                                   (set_entry_points [(s "a", s "1b=2")] base).
+Proof. collision_tac perm_len_tac. Qed.
+
+(* (d) pass_env: the VALUES of the passed variables change, the names do not *)
+Lemma witness_pass_env_values :
+  let pe := Some [s "VERIF_A"; s "VERIF_B"] in
+  one_field_collision FEnviron
+    (set_pass_env pe (set_environ [(s "VERIF_A", []); (s "VERIF_B", s "xVERIF_B=")] base))
+    (set_pass_env pe (set_environ [(s "VERIF_A", s "VERIF_B=x"); (s "VERIF_B", [])] base)).
+Proof. cbv zeta. collision_tac discriminate. Qed.
+
+(* (e) named outputs: a group name is indistinguishable from an entry *)
+Lemma witness_named_outs :
+  one_field_collision FNamedOuts (set_named_outs [(s "a", [s "b"]); (s "c", [s "d"])] base)
+                                 (set_named_outs [(s "a", [s "b"; s "c"; s "d"])] base).
+Proof. collision_tac perm_len_tac. Qed.
+
+(* (f) named sources: the names are not written at all ($SRCS_A becomes $SRCS_B) *)
+Lemma witness_named_srcs_names :
+  one_field_collision FNamedSrcs (set_named_srcs [(s "a", [s "x"])] base) (set_named_srcs [(s "b", [s "x"])] base).
+Proof. collision_tac perm_one_tac. Qed.
+
+(* (g) dependencies: two labels vs one label with the same rendering *)
+Lemma witness_deps :
+  one_field_collision FDeps (set_deps [Label [] (s "z") (s "a"); Label [] (s "z") (s "b")] base)
+                            (set_deps [Label [] (s "z") (s "a//z:b")] base).
+Proof. collision_tac perm_len_tac. Qed.
+
+(* (h) provides *)
+Lemma witness_provides :
+  one_field_collision FProvides (set_provides [(s "go", [Label [] (s "p") (s "a")]); (s "py", [])] base)
+                                (set_provides [(s "go", [Label [] (s "p") (s "apy")])] base).
+Proof. collision_tac perm_len_tac. Qed.
+
+(* (i) tools, named tools and named secrets are not read by ruleHash *)
+Lemma witness_tools :
+  one_field_collision FTools (set_tools [s "/usr/bin/gzip"] base) (set_tools [s "/usr/bin/gunzip"] base).
+Proof. collision_tac discriminate. Qed.
+Lemma witness_named_tools :
+  one_field_collision FNamedTools (set_named_tools [(s "a", [s "//t:x"])] base) (set_named_tools [(s "b", [s "//t:x"])] base).
+Proof. collision_tac perm_one_tac. Qed.
+Lemma witness_named_secrets :
+  one_field_collision FNamedSecrets (set_named_secrets [(s "k", [s "/a"])] base) (set_named_secrets [(s "k", [s "/b"])] base).
+Proof. collision_tac perm_one_tac. Qed.
+
+(* (j) two attributes: the last entry of one list moves to the front of the next list that is written; an optional
+   boolean (written as one byte or not at all) changes places with its neighbour *)
+Lemma witness_adjacent_lists :
+  let t1 := set_optional_outs [s "o"; s "x"] (set_labels [s "l"] base) in
+  let t2 := set_optional_outs [s "o"] (set_labels [s "x"; s "l"] base) in
+  wf t1 /\ wf t2 /\ ~ same_definition t1 t2 /\ ser prog false t1 = ser prog false t2.
+Proof.
+  cbv zeta. split; [vm_compute; reflexivity|]. split; [vm_compute; reflexivity|]. split; [|vm_compute; reflexivity].
+  intros [Hf _]. specialize (Hf FLabels ltac:(cbn; tauto)). unfold field_same in Hf. cbn in Hf. discriminate.
+Qed.
+
+Lemma witness_optional_bool :
+  let t1 := set_sandbox true base in
+  let t2 := set_subrepo true base in
+  wf t1 /\ wf t2 /\ ~ same_definition t1 t2 /\ ser prog false t1 = ser prog false t2.
+Proof.
+  cbv zeta. split; [vm_compute; reflexivity|]. split; [vm_compute; reflexivity|]. split; [|vm_compute; reflexivity].
+  intros [Hf _]. specialize (Hf FSandbox ltac:(cbn; tauto)). unfold field_same in Hf. cbn in Hf. discriminate.
+Qed.
+
+Lemma one_field_collision_relevant f t1 t2 :
+  In f relevant_fields -> one_field_collision f t1 t2 ->
+  wf t1 /\ wf t2 /\ ~ same_definition t1 t2 /\ ser prog false t1 = ser prog false t2.
+Proof.
+  intros Hin (Hw1 & Hw2 & _ & Hne & Hs). repeat split; try assumption. intros [Hf _]. apply Hne. now apply Hf.
+Qed.
+
+(* ------------------------------------------------------------------------------------------ the two property theorems *)
+
+Lemma C08_refuted_proof :
+  ~ (forall (D : Type) (H : str -> D), injective H ->
+     forall t1 t2, wf t1 -> wf t2 -> ~ same_definition t1 t2 -> H (ser prog false t1) <> H (ser prog false t2)).
+Proof.
+  intros Hst.
+  destruct (one_field_collision_relevant FOuts _ _ ltac:(cbn; tauto) witness_list_boundary) as (Hw1 & Hw2 & Hne & Hs).
+  apply (Hst str (fun x => x) (fun a b e => e) _ _ Hw1 Hw2 Hne). exact Hs.
+Qed.
+
+Lemma C08_partial_proof :
+  forall (D : Type) (H : str -> D), injective H ->
+    (forall rt f t1 t2, In f hashed_fields -> agree_except f t1 t2 ->
+       (H (ser prog rt t1) = H (ser prog rt t2) <-> concat (toks_of f rt t1) = concat (toks_of f rt t2))
+       /\ (toks_of f rt t1 <> toks_of f rt t2 -> shift_suspect (toks_of f rt t1) (toks_of f rt t2) = false ->
+           H (ser prog rt t1) <> H (ser prog rt t2)))
+    /\ (forall f t1 t2, In f plain_list_fields -> agree_except f t1 t2 ->
+          (H (ser prog false t1) = H (ser prog false t2) <-> concat (as_list (get f t1)) = concat (as_list (get f t2))))
+    /\ (forall f t1 t2, In f bool_fields \/ In f optbool_fields -> agree_except f t1 t2 ->
+          as_bool (get f t1) <> as_bool (get f t2) -> H (ser prog false t1) <> H (ser prog false t2))
+    /\ (forall t1 t2, agree_except FFileContent t1 t2 -> t_file_content t1 <> t_file_content t2 ->
+          H (ser prog false t1) <> H (ser prog false t2))
+    /\ (forall f t1 t2, f = FCommand \/ f = FCommands -> agree_except f t1 t2 ->
+          effective_command t1 <> effective_command t2 -> H (ser prog false t1) <> H (ser prog false t2))
+    /\ (forall rt f t1 t2, In f [FTools; FNamedTools; FNamedSecrets] -> agree_except f t1 t2 ->
+          H (ser prog rt t1) = H (ser prog rt t2)).
+Proof.
+  intros D H Hinj.
+  split; [intros rt f t1 t2 Hin Ha; exact (one_field_characterisation D H Hinj rt f t1 t2 Hin Ha)|].
+  split; [intros f t1 t2 Hin Ha; exact (list_change_missed_iff D H Hinj f t1 t2 Hin Ha)|].
+  split; [intros f t1 t2 Hin Ha Hne; exact (bool_change_detected D H Hinj f t1 t2 Hin Ha Hne)|].
+  split; [intros t1 t2 Ha Hne; exact (file_content_change_detected D H Hinj t1 t2 Ha Hne)|].
+  split; [intros f t1 t2 Hf Ha Hne; exact (command_change_detected D H Hinj f t1 t2 Hf Ha Hne)|].
+  intros rt f t1 t2 Hin Ha. apply (unread_field_collides D H rt f t1 t2); [|assumption].
+  rewrite gen_unread_fields. cbn in *. tauto.
 Qed.
